@@ -148,17 +148,32 @@ def fieldOut (dl : Dialect) (f : Str) : Str := if dl.trimWs then trim f else f
 theorem addField_eq (dl : Dialect) (rec : List Str) (cur : Str) :
     addField dl rec cur = rec ++ [fieldOut dl cur] := rfl
 
+/-- what may follow the last field of a line: nothing, or the CR of a CR LF line end -/
+def EolOK (d : Char) (eol : Str) : Prop := eol = [] ∨ (eol = ['\r'] ∧ d ≠ '\r')
+
+theorem go_eol (dl : Dialect) (eol : Str) (h : EolOK dl.delim eol) (_h0 : dl.delim ≠ '\x00')
+    (cur : Str) (rec : List Str) : go dl eol false cur rec = addField dl rec cur := by
+  rcases h with h | ⟨h, hd⟩
+  · subst h; exact go_nil dl false cur rec
+  · subst h
+    rw [go_cons]
+    have hd' : ('\r' = dl.delim) = False := by simp; exact fun h => hd h.symm
+    simp [hd']
+
 /-- one rendered field followed by the end of the line or by a delimiter -/
-theorem go_field (dl : Dialect) (hk : dl.keepQuotes = false) (hq : dl.delim ≠ '"')
-    (f : Str) (q : Bool) (tail : Str) (htail : tail = [] ∨ ∃ t, tail = dl.delim :: t)
+theorem go_field (dl : Dialect) (f : Str) (q : Bool) (hk : q = true → dl.keepQuotes = false)
+    (hq : dl.delim ≠ '"') (tail : Str)
+    (htail : tail = [] ∨ (∃ t, tail = dl.delim :: t) ∨ tail = ['\r'])
     (hc : Clean f) (hb : q = false → needsQuote dl.delim f = false) (rec : List Str) :
     go dl (renderField f q ++ tail) false [] rec = go dl tail false f rec := by
   cases q with
   | true =>
+    have hk := hk rfl
     have ht : tail = [] ∨ ∃ c t, tail = c :: t ∧ c ≠ '"' := by
-      rcases htail with h | ⟨t, h⟩
+      rcases htail with h | ⟨t, h⟩ | h
       · exact Or.inl h
       · exact Or.inr ⟨_, t, h, hq⟩
+      · exact Or.inr ⟨'\r', [], h, by decide⟩
     simp only [renderField, if_true, List.cons_append, List.append_assoc]
     rw [go_cons]
     simp only [isBlank, List.all_nil, hk]
@@ -183,30 +198,166 @@ theorem go_field (dl : Dialect) (hk : dl.keepQuotes = false) (hq : dl.delim ≠ 
     rw [go_bare dl f tail [] rec hbare]
     simp
 
-/-- the whole rendered line -/
-theorem go_line (dl : Dialect) (hk : dl.keepQuotes = false) (h0 : dl.delim ≠ '\x00')
-    (hq : dl.delim ≠ '"') : ∀ (fs : List (Str × Bool)) (rec : List Str), fs ≠ [] →
+/-- the whole rendered line (with its line end) -/
+theorem go_line (dl : Dialect) (h0 : dl.delim ≠ '\x00')
+    (hq : dl.delim ≠ '"') (eol : Str) (heol : EolOK dl.delim eol) :
+    ∀ (fs : List (Str × Bool)) (rec : List Str), fs ≠ [] →
+    (∀ p ∈ fs, p.2 = true → dl.keepQuotes = false) →
     (∀ p ∈ fs, Clean p.1 ∧ (p.2 = false → needsQuote dl.delim p.1 = false)) →
-    go dl (renderLine dl.delim fs) false [] rec = rec ++ fs.map (fun p => fieldOut dl p.1) := by
+    go dl (renderLine dl.delim fs ++ eol) false [] rec = rec ++ fs.map (fun p => fieldOut dl p.1) := by
   intro fs
   induction fs with
   | nil => intro _ h; exact absurd rfl h
   | cons p rest ih =>
-    intro rec _ hall
+    intro rec _ hk hall
     obtain ⟨f, q⟩ := p
     obtain ⟨hc, hb⟩ := hall (f, q) (by simp)
+    have hkq : q = true → dl.keepQuotes = false := hk (f, q) (by simp)
     cases rest with
     | nil =>
-      have := go_field dl hk hq f q [] (Or.inl rfl) hc hb rec
-      simp only [List.append_nil] at this
-      simp only [renderLine, this, go_nil, addField_eq, List.map]
+      have htl : eol = [] ∨ (∃ t, eol = dl.delim :: t) ∨ eol = ['\r'] := by
+        rcases heol with h | ⟨h, _⟩
+        · exact Or.inl h
+        · exact Or.inr (Or.inr h)
+      have := go_field dl f q hkq hq eol htl hc hb rec
+      simp only [renderLine, this, go_eol dl eol heol h0, addField_eq, List.map]
     | cons p2 rest2 =>
-      have hr : renderLine dl.delim ((f, q) :: p2 :: rest2) =
-          renderField f q ++ dl.delim :: renderLine dl.delim (p2 :: rest2) := by
+      have hr : renderLine dl.delim ((f, q) :: p2 :: rest2) ++ eol =
+          renderField f q ++ dl.delim :: (renderLine dl.delim (p2 :: rest2) ++ eol) := by
         simp [renderLine]
-      rw [hr, go_field dl hk hq f q _ (Or.inr ⟨_, rfl⟩) hc hb rec, go_delim dl _ _ _ h0 hq,
-        ih (addField dl rec f) (by simp) (fun x hx => hall x (by simp [hx])), addField_eq]
+      rw [hr, go_field dl f q hkq hq _ (Or.inr (Or.inl ⟨_, rfl⟩)) hc hb rec, go_delim dl _ _ _ h0 hq,
+        ih (addField dl rec f) (by simp) (fun x hx => hk x (by simp [hx]))
+          (fun x hx => hall x (by simp [hx])), addField_eq]
       simp
+
+/-! ### lines of a file -/
+
+/-- a file: every line followed by `eol` and LF -/
+def renderFile (eol : Str) (lines : List Str) : Str := lines.flatMap (fun l => l ++ eol ++ ['\n'])
+
+theorem splitLinesAux_line (l rest : Str) (hl : '\n' ∉ l) : ∀ cur : Str,
+    splitLinesAux (l ++ '\n' :: rest) cur = (cur ++ l) :: splitLinesAux rest [] := by
+  induction l with
+  | nil => intro cur; simp [splitLinesAux]
+  | cons c l ih =>
+    intro cur
+    have hc : c ≠ '\n' := fun h => hl (by simp [h])
+    have hl' : '\n' ∉ l := fun h => hl (by simp [h])
+    simp only [List.cons_append, splitLinesAux, hc, if_false]
+    rw [ih hl' (cur ++ [c])]
+    simp
+
+theorem splitLines_renderFile (eol : Str) (heol : '\n' ∉ eol) : ∀ (lines : List Str),
+    (∀ l ∈ lines, '\n' ∉ l) → splitLines (renderFile eol lines) = lines.map (fun l => l ++ eol) := by
+  intro lines
+  induction lines with
+  | nil => intro _; rfl
+  | cons l ls ih =>
+    intro h
+    have hl : '\n' ∉ l ++ eol := by
+      intro hm
+      rcases List.mem_append.1 hm with hm | hm
+      · exact h l (by simp) hm
+      · exact heol hm
+    have : renderFile eol (l :: ls) = (l ++ eol) ++ '\n' :: renderFile eol ls := by
+      simp [renderFile]
+    unfold splitLines at *
+    rw [this, splitLinesAux_line _ _ hl []]
+    simp only [List.nil_append, List.map]
+    rw [ih (fun x hx => h x (by simp [hx]))]
+
+theorem mem_esc (f : Str) (c : Char) (h : c ∈ esc f) : c = '"' ∨ c ∈ f := by
+  induction f with
+  | nil => simp [esc] at h
+  | cons a f ih =>
+    by_cases ha : a = '"'
+    · simp only [esc, ha, if_true, List.mem_cons] at h
+      rcases h with h | h | h
+      · exact Or.inl h
+      · exact Or.inl h
+      · rcases ih h with h | h
+        · exact Or.inl h
+        · exact Or.inr (by simp [h])
+    · simp only [esc, ha, if_false, List.mem_cons] at h
+      rcases h with h | h
+      · exact Or.inr (by simp [h])
+      · rcases ih h with h | h
+        · exact Or.inl h
+        · exact Or.inr (by simp [h])
+
+theorem mem_renderField (f : Str) (q : Bool) (c : Char) (h : c ∈ renderField f q) : c = '"' ∨ c ∈ f := by
+  cases q with
+  | false => exact Or.inr (by simpa [renderField] using h)
+  | true =>
+    simp only [renderField, if_true, List.mem_cons, List.mem_append, List.mem_nil_iff, or_false] at h
+    rcases h with h | h | h
+    · exact Or.inl h
+    · exact mem_esc f c h
+    · exact Or.inl h
+
+theorem mem_renderLine (d : Char) : ∀ (l : List (Str × Bool)) (c : Char), c ∈ renderLine d l →
+    c = d ∨ c = '"' ∨ ∃ p ∈ l, c ∈ p.1 := by
+  intro l
+  induction l with
+  | nil => intro c h; simp [renderLine] at h
+  | cons p rest ih =>
+    intro c h
+    obtain ⟨f, q⟩ := p
+    cases rest with
+    | nil =>
+      simp only [renderLine] at h
+      rcases mem_renderField f q c h with h | h
+      · exact Or.inr (Or.inl h)
+      · exact Or.inr (Or.inr ⟨(f, q), by simp, h⟩)
+    | cons p2 rest2 =>
+      have hr : renderLine d ((f, q) :: p2 :: rest2) = renderField f q ++ d :: renderLine d (p2 :: rest2) := by
+        simp [renderLine]
+      rw [hr] at h
+      simp only [List.mem_append, List.mem_cons] at h
+      rcases h with h | h | h
+      · rcases mem_renderField f q c h with h | h
+        · exact Or.inr (Or.inl h)
+        · exact Or.inr (Or.inr ⟨(f, q), by simp, h⟩)
+      · exact Or.inl h
+      · rcases ih c h with h | h | ⟨p, hp, h⟩
+        · exact Or.inl h
+        · exact Or.inr (Or.inl h)
+        · exact Or.inr (Or.inr ⟨p, by simp only [List.mem_cons] at hp ⊢; exact Or.inr hp, h⟩)
+
+/-- the records the parser delivers for a rendered file are the rows of cells (filtered) -/
+theorem records_render (dl : Dialect) (hk : dl.keepQuotes = false) (h0 : dl.delim ≠ '\x00')
+    (hq : dl.delim ≠ '"') (hn : dl.delim ≠ '\n') (eol : Str) (heol : EolOK dl.delim eol)
+    (filter : List Str → Bool) (ls : List (List (Str × Bool)))
+    (hne : ∀ l ∈ ls, l ≠ [])
+    (hclean : ∀ l ∈ ls, ∀ p ∈ l, Clean p.1 ∧ (p.2 = false → needsQuote dl.delim p.1 = false))
+    (hvis : ∀ l ∈ ls, isBlank (renderLine dl.delim l ++ eol) = false) :
+    records dl filter (splitLines (renderFile eol (ls.map (renderLine dl.delim)))) =
+      (ls.map (fun l => l.map (fun p => fieldOut dl p.1))).filter filter := by
+  have heoln : '\n' ∉ eol := by
+    rcases heol with h | ⟨h, _⟩ <;> simp [h]
+  have hnl : ∀ l ∈ ls.map (renderLine dl.delim), '\n' ∉ l := by
+    intro l hl hm
+    simp only [List.mem_map] at hl
+    obtain ⟨fs, hfs, rfl⟩ := hl
+    rcases mem_renderLine dl.delim fs '\n' hm with h | h | ⟨p, hp, h⟩
+    · exact hn h.symm
+    · exact absurd h (by decide)
+    · exact ((hclean fs hfs p hp).1 '\n' h).2.2 rfl
+  rw [splitLines_renderFile eol heoln _ hnl]
+  unfold records
+  congr 1
+  simp only [List.map_map]
+  rw [List.filter_eq_self.2]
+  · rw [List.map_map]
+    apply List.map_congr_left
+    intro fs hfs
+    simp only [Function.comp, parseLine]
+    rw [go_line dl h0 hq eol heol fs [] (hne fs hfs) (fun _ _ _ => hk) (hclean fs hfs)]
+    simp
+  · intro l hl
+    simp only [List.mem_map, Function.comp] at hl
+    obtain ⟨fs, hfs, rfl⟩ := hl
+    simp [hvis fs hfs]
 
 /-! ### `trim` -/
 
